@@ -1,7 +1,7 @@
 (** non-vacuity for C19: concrete schemas and requests meeting the hypotheses of each theorem of
     Properties/C19.v, with the answer the model computes for them *)
 From Coq Require Import List NArith ZArith Bool String.
-From ApiFu Require Import Base.Sexp JsonApi.JsonApiModel JsonApi.JsonApiSpec JsonApi.JsonApiProofs.
+From ApiFu Require Import Base.Sexp JsonApi.JsonApiModel JsonApi.JsonApiSpec JsonApi.JsonApiProofs JsonApi.JsonApiExtras.
 Import ListNotations.
 Open Scope string_scope.
 Open Scope list_scope.
@@ -21,9 +21,12 @@ Example fetch_answer :
     (WDoc (Some version_1_1)
        (WOne {| w_type := b "things"; w_id := b "2"; w_attrs := [b "a"];
                 w_rels := [ (b "one", {| rel_links := [(s_related, b "/things/2/one"); (s_self, b "/things/2/relationships/one")];
-                                         rel_data := Some (LOne {| r_type := b "things"; r_id := b "2" |}) |});
+                                         rel_data := Some (LOne {| r_type := b "things"; r_id := b "2" |}); rel_meta := [] |});
                             (b "many", {| rel_links := [(s_related, b "/things/2/many"); (s_self, b "/things/2/relationships/many")];
-                                          rel_data := None |}) ] |})
+                                          rel_data := None; rel_meta := [] |});
+                            (b "owner", {| rel_links := [(s_related, b "/things/2/owner"); (s_self, b "/things/2/relationships/owner");
+                                                         (b "describedby", b "https://example.com/owner")];
+                                           rel_data := None; rel_meta := [] |}) ] |})
        [] [(s_self, b "/things/2")]) None.
 Proof. vm_compute. reflexivity. Qed.
 
@@ -74,7 +77,7 @@ Proof. eapply (O_delete _ _ toy_things (b "2")); vm_compute; reflexivity. Qed.
 
 (** ja_409: PATCH of a related resource whose document names another id *)
 Definition doc_things (id : string) : body :=
-  BJson (JObj [(s_data, JObj [(s_type, JStr (b "things")); (s_id, JStr (b id))])]).
+  BJson (JObj [(s_data, JObj [(s_type, JStr (b "things")); (s_id, JStr (b id))])]) [].
 Example hyp_409 : conflict toy_schema (toy_request "PATCH" "/things/7/one" ok_accept (doc_things "3")).
 Proof.
   eapply (K_update_related _ _ toy_things (b "7") (b "one") 0%N _ {| r_type := b "things"; r_id := b "2" |} toy_things).
@@ -95,6 +98,42 @@ Proof. vm_compute. auto. Qed.
 (** linkage decoding: PATCH of a relationship hands Patch the decoded linkage *)
 Example linkage_call :
   answer_call (serve (toy_request "PATCH" "/things/2/relationships/one" ok_accept
-                        (BJson (JObj [(s_data, identifier_object {| r_type := b "things"; r_id := b "9" |})])))) =
+                        (BJson (JObj [(s_data, identifier_object {| r_type := b "things"; r_id := b "9" |})]) []))) =
   Some (CPatch (b "2") [] [(b "one", LOne {| r_type := b "things"; r_id := b "9" |})]).
 Proof. vm_compute. reflexivity. Qed.
+
+(** custom RelationshipResolver implementations.  Resource "c7" (value 7): the resolver's own "self"
+    replaces the standard one, its "describedby" is added, its Meta is carried; the relationship
+    links of a resource served later in a history are those of that resource *)
+Definition owner_of (o : outcome) : option relationship :=
+  match o with
+  | Resp _ _ (WDoc _ (WOne i) _ _) _ => option_map snd (find (fun nr => bytes_eqb (fst nr) (b "owner")) (w_rels i))
+  | _ => None
+  end.
+Example custom_links_history :
+  map owner_of (serve_history toy_pmt toy_choose toy_schema
+                  [toy_request "GET" "/things/c7" ok_accept BNone; toy_request "GET" "/things/2" ok_accept BNone]) =
+  [ Some {| rel_links := [(s_related, b "/things/c7/owner"); (s_self, b "/elsewhere"); (b "describedby", b "https://example.com/owner")];
+            rel_data := None; rel_meta := [(b "count", true)] |};
+    Some {| rel_links := [(s_related, b "/things/2/owner"); (s_self, b "/things/2/relationships/owner");
+                          (b "describedby", b "https://example.com/owner")];
+            rel_data := None; rel_meta := [] |} ].
+Proof. vm_compute. reflexivity. Qed.
+
+(** the relationship endpoint of a custom resolver: its Data and its links; without Data the
+    related-resource endpoint answers 500 (before the fix: a nil dereference) *)
+Example custom_relationship_endpoint :
+  serve (toy_request "GET" "/things/c7/relationships/owner" ok_accept BNone) =
+  Resp 200 media_type
+    (WDoc (Some version_1_1) (WOne (witem_of_rid {| r_type := b "things"; r_id := b "7" |})) []
+       [(s_related, b "/things/c7/owner"); (s_self, b "/elsewhere"); (b "describedby", b "https://example.com/owner")]) None /\
+  answer_status (serve (toy_request "GET" "/things/c9/owner" ok_accept BNone)) = Some 500%Z /\
+  answer_status (serve (toy_request "GET" "/things/c7/owner" ok_accept BNone)) = Some 200%Z.
+Proof. vm_compute. auto. Qed.
+
+(** C19_ja_trailing_bytes: the hypotheses are satisfiable, and white space after the document is fine *)
+Example trailing_bytes :
+  let doc := JObj [(s_data, JObj [(s_type, JStr (b "things")); (s_id, JStr (b "2"))])] in
+  answer_status (serve (toy_request "PATCH" "/things/2" ok_accept (BJson doc (b "}")))) = Some 400%Z /\
+  answer_status (serve (toy_request "PATCH" "/things/2" ok_accept (BJson doc (b " ")))) = Some 200%Z.
+Proof. vm_compute. auto. Qed.
